@@ -1,7 +1,7 @@
 """Generate a complete site with the real FORD (end to end, in a subprocess, inside a sandbox under out/tmp) and inspect the HTML that was written.
 Shared by the bounded stand-ins of C09 (links), C16 (external projects), C17 (static pages) and C18 (rendered declarations)."""
 from __future__ import annotations
-import contextlib, html.parser, json, os, re, shutil, subprocess, sys, tempfile, urllib.parse
+import contextlib, html, html.parser, json, os, re, shutil, subprocess, sys, tempfile, urllib.parse
 from bounded import realrun
 
 VERIF = os.path.dirname(os.path.dirname(os.path.abspath(__file__)))
@@ -51,10 +51,21 @@ class _Collector(html.parser.HTMLParser):
     handle_startendtag = handle_starttag
 
 
+RAW_HREF = re.compile(r"""href=(?:"([^"]*)"|'([^']*)')""")
+
+
 def scan(path):
     c = _Collector()
     with open(path, encoding="utf-8", errors="replace") as f:
-        c.feed(f.read())
+        text = f.read()
+    c.feed(text)
+    # links written into attribute values (popover content) are links for the reader too: every href="..." of the raw text that the parser did not deliver as a tag attribute
+    known = {u for _, _, u in c.links}
+    for m in RAW_HREF.finditer(re.sub(r"(?is)<script\b.*?</script>", "", text)):
+        u = html.unescape(m.group(1) if m.group(1) is not None else m.group(2))
+        if u not in known and "{" not in u and not u.startswith(("javascript:", "data:")):
+            c.links.append(("raw-text", "href", u))
+            known.add(u)
     return c
 
 
